@@ -20,7 +20,7 @@ ASSUMPTIONS = ['no stored logit is exactly 0.0 (0.0 is the sparse format\'s "pru
                'the end-to-end leg uses transcriptions with plain single spaces, geometry inside the page; both layouts go through the same decoder and exporter']
 N = {'quick': 500, 'thorough': 30000}
 CLASSES = ['roundtrip', 'roundtrip_bytes', 'subset', 'superset', 'legacy', 'missing_component', 'dense', 'rebuild', 'rebuild', 'empty_page']
-REQUIRED = ['roundtrip_lines', 'untouched_checked', 'missing_reported', 'dense_checked', 'rebuild_pages', 'rebuild_lines_decoded', 'rebuild_alto_compared', 'legacy_checked', 'reloads', 'parse_folder_rebuilds', 'float32_lines']
+REQUIRED = ['legacy:characters_only', 'legacy:coords_only', 'roundtrip_lines', 'untouched_checked', 'missing_reported', 'dense_checked', 'rebuild_pages', 'rebuild_lines_decoded', 'rebuild_alto_compared', 'legacy_checked', 'reloads', 'parse_folder_rebuilds', 'float32_lines']
 CHARSETS = [list('abcdefgh '), list('abc '), ['a', 'b', 'é', 'ạ̈', 'שׁ', '\U0001F600', ' '], [chr(0x61 + k) for k in range(26)] + [' ', '.', ',']]
 
 
@@ -158,21 +158,36 @@ def check(case, mon, ctx):
     if cls == 'subset' and lines_a:
         drop = tuple(l.id for l in lines_a[::2])
     keep_obj = L.TextLine(id='not-in-file', logits='KEEP-LOGITS', characters='KEEP-CHARS', logit_coords='KEEP-COORDS')
-    extra = (keep_obj,)
+    # more lines that are absent from the file, with ids that resemble ids in the file (prefixed as validate_id exports them, suffixed, truncated, other case)
+    look_alikes = []
+    if lines_a:
+        x = lines_a[case['seed'] % len(lines_a)].id
+        for v in ('id_' + x, x + '_1', x[:-1], x.upper(), ' ' + x, x.split('.')[0]):
+            if v and v not in {l.id for l in lines_a}:
+                look_alikes.append(L.TextLine(id=v, logits='KEEP-LOGITS', characters='KEEP-CHARS', logit_coords='KEEP-COORDS'))
+    extra = (keep_obj,) + tuple(look_alikes)
     b = skeleton(L, a, drop=drop, extra=extra)
     if cls == 'superset':
         # file with more ids than the layout has
         a.regions[0].lines.append(L.TextLine(id='only-in-file', logits=random_sparse(np.random.default_rng(1), 3, 4), characters=['a', 'b', 'c', '_'], logit_coords=[0, 3]))
     if cls == 'legacy':
+        # older generations of the file: matrices only, matrices + character tables, matrices + frame windows
         d = a._gen_logits()
-        d.pop('line_characters'); d.pop('logit_coords')
+        which = ['neither', 'characters_only', 'coords_only'][case['seed'] % 3]
+        if which != 'characters_only':
+            d.pop('line_characters')
+        if which != 'coords_only':
+            d.pop('logit_coords')
         b.load_logits(pickle.dumps(d, protocol=4))
         mon.count('legacy_checked')
+        mon.count('legacy:' + which)
         by = {l.id: l for l in b.lines_iterator()}
         for la in lines_a:
             lb = by[la.id]
-            if not same_sparse(la.logits, lb.logits) or lb.characters is not None or lb.logit_coords != [None, None]:
-                mon.violation('legacy-file-loads', {'line': la.id, 'characters': lb.characters, 'coords': lb.logit_coords})
+            e_chars = la.characters if which == 'characters_only' else None
+            e_coords = la.logit_coords if which == 'coords_only' else [None, None]
+            if not same_sparse(la.logits, lb.logits) or lb.characters != e_chars or lb.logit_coords != e_coords:
+                mon.violation('legacy-file-loads', {'file_has': which, 'line': la.id, 'characters': lb.characters, 'coords': lb.logit_coords, 'expected_characters': e_chars, 'expected_coords': e_coords})
         return
     try:
         save_and_load(a, b, case, ctx)
@@ -192,9 +207,10 @@ def check(case, mon, ctx):
             mon.violation('restores-identical', {'line': la.id, 'what': 'character table', 'got': lb.characters, 'expected': la.characters})
         if lb.logit_coords != la.logit_coords:
             mon.violation('restores-identical', {'line': la.id, 'what': 'frame window', 'got': lb.logit_coords, 'expected': la.logit_coords})
-    mon.count('untouched_checked')
-    if keep_obj.logits != 'KEEP-LOGITS' or keep_obj.characters != 'KEEP-CHARS' or keep_obj.logit_coords != 'KEEP-COORDS':
-        mon.violation('absent-lines-untouched', {'line': keep_obj.id, 'logits': repr(keep_obj.logits)[:60]})
+    for ko in extra:
+        mon.count('untouched_checked')
+        if not (isinstance(ko.logits, str) and ko.logits == 'KEEP-LOGITS') or ko.characters != 'KEEP-CHARS' or ko.logit_coords != 'KEEP-COORDS':
+            mon.violation('absent-lines-untouched', {'line': ko.id, 'ids_in_file': [l.id for l in lines_a if l.id not in drop][:8], 'logits': repr(ko.logits)[:60]})
     check_dense(b, mon)
     if cls in ('roundtrip', 'roundtrip_bytes', 'dense', 'subset'):
         # history: the SAME layout object (already densified above) now loads a different file with the same line ids
